@@ -67,6 +67,12 @@ Fixpoint scan (serial : N) (axfr : bool) (n : nat) (l : list rr) : bool * bool *
     else scan serial axfr n t
   end.
 
+(* RFC 1982 serial number arithmetic on 32 bits, as  int32(s - q) > 0  computes
+   it: s is newer than q iff (s - q) mod 2^32 is in 1 .. 2^31 - 1 *)
+Definition serial_newer (s q : N) : bool :=
+  let d := (s mod 4294967296 + 4294967296 - q mod 4294967296) mod 4294967296 in
+  (0 <? d) && (d <? 2147483648).
+
 Section Xfr.
   Variable mac : Type.
   (* TsigVerifyWithProvider(p, provider, requestMAC, timersOnly) followed by
@@ -100,9 +106,9 @@ Section Xfr.
       | VOk (e, m') =>
         let rrs := e_rrs e in
         if negb (e_id e =? qid) then [mkItem rrs (Some "id"%string)]
+        else if negb (e_rcode e =? 0) then [mkItem rrs (Some "rcode"%string)]
         else if first then
-          if negb (e_rcode e =? 0) then [mkItem rrs (Some "rcode"%string)]
-          else if negb (is_soa_first rrs) then [mkItem rrs (Some "soa"%string)]
+          if negb (is_soa_first rrs) then [mkItem rrs (Some "soa"%string)]
           else if Nat.eqb (length rrs) 1 then mkItem rrs None :: axfr_loop false m' true rs'
           else if is_soa_last rrs then [mkItem rrs None]
           else mkItem rrs None :: axfr_loop false m' true rs'
@@ -128,7 +134,7 @@ Section Xfr.
         else
           match (match n with
                  | O => if negb (is_soa_first rrs) then inl [mkItem rrs (Some "soa"%string)]
-                        else if hd_serial rrs <=? qser then inl [mkItem rrs None]
+                        else if negb (serial_newer (hd_serial rrs) qser) then inl [mkItem rrs None]
                         else inr (hd_serial rrs)
                  | S _ => inr serial
                  end) with
